@@ -57,10 +57,11 @@ func cmdRace(args []string) error {
 				}
 			}()
 			var it gojq.Iter
+			ctx := newGuardCtx(0, 100000, 5*time.Second)
 			if parsedOnly {
-				it = q.RunWithContext(newGuardCtx(0, 100000, time.Second), v)
+				it = q.RunWithContext(ctx, v)
 			} else {
-				it = code.RunWithContext(newGuardCtx(0, 100000, time.Second), v)
+				it = code.RunWithContext(ctx, v)
 			}
 			for len(ds) < 30 {
 				x, ok := it.Next()
@@ -68,6 +69,10 @@ func cmdRace(args []string) error {
 					break
 				}
 				if err, ok := x.(error); ok {
+					if ctx.budget {
+						// ended by a budget of the harness (wall clock, process heap), not by the library: no verdict from this run
+						return []string{"BUDGET"}
+					}
 					ds = append(ds, "E:"+fmt.Sprintf("%T", err))
 					break
 				}
@@ -77,7 +82,7 @@ func cmdRace(args []string) error {
 		}
 		solo := runOne(mk())
 		rec["solo"] = solo
-		diverged := 0
+		diverged, budget := 0, 0
 		var mu sync.Mutex
 		var first []string
 		done := make(chan struct{})
@@ -103,7 +108,11 @@ func cmdRace(args []string) error {
 							runtime.Gosched()
 						}
 						ds := runOne(v)
-						if fmt.Sprint(ds) != fmt.Sprint(solo) {
+						if len(ds) == 1 && ds[0] == "BUDGET" {
+							mu.Lock()
+							budget++
+							mu.Unlock()
+						} else if fmt.Sprint(ds) != fmt.Sprint(solo) {
 							mu.Lock()
 							diverged++
 							if first == nil {
@@ -119,10 +128,10 @@ func cmdRace(args []string) error {
 		}()
 		select {
 		case <-done:
-		case <-time.After(60 * time.Second):
+		case <-time.After(180 * time.Second):
 			rec["deadlock"] = true
 		}
-		rec["diverged"], rec["first_diverged"] = diverged, first
+		rec["diverged"], rec["first_diverged"], rec["budget"] = diverged, first, budget
 		rec["runs"] = g * reps
 		return w.write(rec)
 	})
